@@ -27,6 +27,7 @@ def size_pass(ctx, n_prog, rng, levels, opts_list):
     for i in range(n_prog):
         progs['p%d' % i] = gen_program(rng, opts_list[i % len(opts_list)])
     srcs = {k: p.source() for k, p in progs.items()}
+    decls = {k: getattr(p, 'asm_decl', {}) for k, p in progs.items()}
     comp = compile_variants(srcs, {O: [O] for O in levels})
     recs = {}
     info = {}
@@ -58,6 +59,7 @@ def size_pass(ctx, n_prog, rng, levels, opts_list):
                 problems.append('no 6502 encoding for lines ' + ','.join(d['illegal']))
             if not d['illegal'] and not d['unknown'] and d['size'] != reported:
                 problems.append('size_bytes() = %d but the code assembles to %d bytes' % (reported, d['size']))
+            problems += asm_size_problems(decls[key.split('@')[0]], {fn: lines})
             if problems:
                 viol.append({'why': '; '.join(problems), 'program': srcs[key.split('@')[0]], 'level': key.split('@')[1],
                              'function': fn, 'lines': lines})
@@ -75,7 +77,7 @@ def run(ctx):
                                                          'variables': [(v['name'], v['type'], v['memory']) for v in vars_][:40]}
     ctx.cov['distinct_nontrivial'] = len(table)
     levels = ['-O0', '-O1'] if quick else ['-O0', '-O1', '-O2', '-O3']
-    opts = [dict(), dict(superchip=True), dict(hw=True, inline=True), dict(bait=True, superchip=True)]
+    opts = [dict(), dict(superchip=True), dict(hw=True, inline=True, asm_sized=True), dict(bait=True, superchip=True), dict(hw=True, inline=True, asm_sized=True, calls=True, max_stmts=14)]
     viol, nfun, cells, nprog = size_pass(ctx, 300 if quick else 6000, rng, levels, opts)
     ctx.cov['programs'] = nprog
     ctx.cov['correspondence']['corr-S sizes'] = {'functions_reassembled': nfun, 'violations': len(viol),
